@@ -1,12 +1,11 @@
 #!/venv/bin/python
-"""summarise replays/<P>/<tier>_signatures.json"""
-import json, sys, collections
+"""compact summary of replays/<P>/<tier>_signatures.json:  sigs.py P [tier] [maxlines] [detail_chars]"""
+import json, sys, collections, re
 prop = sys.argv[1]; tier = sys.argv[2] if len(sys.argv) > 2 else "quick"
-full = len(sys.argv) > 3
+maxl = int(sys.argv[3]) if len(sys.argv) > 3 else 40
+dch = int(sys.argv[4]) if len(sys.argv) > 4 else 160
 d = json.load(open(f"/verif/replays/{prop}/{tier}_signatures.json"))
-c = collections.Counter(); ex = {}
-for x in d:
-    k = (x["clause"], x["key"].split("|")[0]) if not full else (x["clause"], x["key"])
-    c[k] += 1; ex.setdefault(k, x)
-for k, n in c.most_common():
-    print(n, k, "::", ex[k]["key"][:160]); print("      ", ex[k]["detail"][:int(sys.argv[4]) if len(sys.argv) > 4 else 500])
+print(len(d), "distinct signatures")
+for x in d[:maxl]:
+    print(f"- [{x['n']}] {x['clause']} :: {x['key'][:150]}")
+    if dch: print("     ", re.sub(r"\s+", " ", x["detail"])[:dch])
